@@ -459,6 +459,39 @@ func sandboxProbe(w *World, n *Node) {
 	if _, ok = ob.do("EVAL", "return {KEYS[1], ARGV[1]}", "1", "secretkey", "secretarg"); !ok {
 		return
 	}
+	// 2. more scripts in flight than the pool holds: every interpreter - also one created on
+	// demand - must refuse new globals. The scripts' inner calls are held at the lock so that
+	// all of them are in flight at once.
+	n.inst.lock.holdRole = "luacall"
+	var piled []*Actor
+	for i := 0; i < 8; i++ {
+		a := w.addActor(n, simAddr(fmt.Sprintf("127.0.0.1:%d", 52000+i)), []Cmd{{Args: []string{"EVALNA",
+			"local v = tile38.call('EXISTS', 'k1', 'a') zzleak = ARGV[1] return 1", "0", fmt.Sprintf("secret%d", i)}}})
+		piled = append(piled, a)
+	}
+	w.Settle()
+	inflight := 0
+	for _, r := range n.inst.lock.pending {
+		if r.role == "luacall" {
+			inflight++
+		}
+	}
+	w.stat("c18.scripts_piled_up", inflight)
+	n.inst.lock.holdRole = ""
+	w.Drain(10*time.Second, func() bool {
+		for _, a := range piled {
+			if len(a.ops) == 0 || a.ops[0].Return < 0 {
+				return false
+			}
+		}
+		return true
+	})
+	for _, a := range piled {
+		if len(a.ops) > 0 && a.ops[0].Return >= 0 && !a.ops[0].Reply.isErr() {
+			w.violate("C18/sandbox", "with %d scripts in flight at once one of them created a global variable (reply %s): interpreters created on demand are not sealed", inflight, a.ops[0].Reply.String())
+			return
+		}
+	}
 	w.Settle()
 	srv := n.inst.srv
 	pool := srv.luapool
